@@ -1,5 +1,6 @@
 import MxModel.Exec.Mech
 import MxModel.Exec.Expr
+import MxModel.Exec.Spelled
 import Driver.Sexp
 /-! Line-protocol driver for the Exec layer (executor, cache, graphs). -/
 namespace Driver.Exec
@@ -205,14 +206,15 @@ def step (w : World) (line : String) : World × String :=
       match w.cell? id with
       | none => (w, if w.declared id then "err Deleted" else "err Name")
       | some d =>
-        match d.bind sp with
-        | none => (w, "err Type")
-        | some key =>
-        let (r, st') := evalTop w.env (id, key) w.st
+        -- `evalSpelled`: bind (`get_node`), then `evalTop` of the bound element
+        match evalSpelled w.env id d.nparams d.defaults sp.1 sp.2 w.st with
+        | (.typeError, _) => (w, "err Type")
+        | (.res r, st') =>
+        let le := match d.bind sp with | some key => some ((id, key), w.st) | none => w.lastEval
         match r with
-        | .ok v => ({ w with st := st', lastEval := some ((id, key), w.st) }, "ok " ++ showVal v)
+        | .ok v => ({ w with st := st', lastEval := le }, "ok " ++ showVal v)
         | .formulaError e tb =>
-          ({ w with st := st', lastEval := some ((id, key), w.st) },
+          ({ w with st := st', lastEval := le },
            s!"err Formula {showErr e} tb=" ++ ",".intercalate (tb.map showNode))
     | _, _ => (w, "bad-op")
   | "set" :: id :: rest =>
